@@ -546,6 +546,11 @@ def shape_catalogue():
         prog(f"forever_{tname}", [("forever", [_u(1), ("if", [(False, [_c(10)], [("ctrl", "break_loop")])], None), _u(2)])] + tail)
         prog(f"forever_cont_{tname}", [("forever", [_u(1), ("if", [(False, [_c(10)], [("ctrl", "continue")])], [("ctrl", "break_loop")])])] + tail)
         prog(f"forever_nested_{tname}", [("forever", [_u(1), ("forever", [_u(2), ("if", [(False, [_c(10)], [("ctrl", "break_loop")])], None)]), ("if", [(True, [_c(11)], [("ctrl", "break_loop")])], None)])] + tail)
+        prog(f"forever_two_exits_{tname}", [_u(0), ("forever", [_u(1), ("if", [(False, [_c(10)], [_u(2), ("ctrl", "break_loop")])], None),
+                                                                ("if", [(False, [_c(11)], [("ctrl", "break_loop")])], None), _u(3)]), _u(4)] + tail)
+        prog(f"while_break_with_stmt_{tname}", [("while", False, _c(10), [_u(1), ("if", [(False, [_c(11)], [_u(2), ("ctrl", "break_loop")])], None), _u(3)]), _u(4)] + tail)
+        prog(f"if_else_nested_in_if_else_{tname}", [("if", [(False, [_c(10)], [("if", [(False, [_c(11)], [_u(1)])], [_u(2), _u(3)])])], [_u(4)]), _u(5)] + tail)
+        prog(f"if_else_twice_nested_{tname}", [("if", [(False, [_c(10)], [("if", [(False, [_c(11)], [_u(1)])], [_u(2), _u(3)]), _u(6)]), (False, [_c(12)], [_u(7)])], [_u(4)]), _u(5)] + tail)
         prog(f"forever_onlybreak_{tname}", [("forever", [("ctrl", "break_loop")])] + tail)
         prog(f"for_{tname}", [("for", ("asg", ("flag_Set", (("const", "$I"), ("int", 1)))), _c(10), ("asg", ("flag_CalcValue", (("const", "$I"), ("int", 2), ("int", 2)))), [_u(3), ("if", [(False, [_c(11)], [("ctrl", "continue")])], None), ("if", [(False, [_c(12)], [("ctrl", "break_loop")])], None), _u(4)])] + tail)
         prog(f"for_empty_{tname}", [("for", _u(1), _c(10), _u(2), [])] + tail)
